@@ -42,6 +42,8 @@ def gen_cases(tier, seed):
             yield ('B', g)
     for i in range(len(patterned_irs())):
         yield ('P', i)
+    for i in range(len(chain_irs())):
+        yield ('Q', i)
     T = IR.recursive_templates()
     for name in T:
         for dom in (1, 2):
@@ -80,6 +82,9 @@ def run_case(case):
                     w = IR.set_entry(w, 'i', (a, b), Fraction(0))
         judge(ir, w, r, case, nonrec=True)
         judge(ir, w, r, case, nonrec=True, pres={'node_order': {ri: tuple(reversed(range(len(rule[1])))) for ri, rule in enumerate(ir['rules'])}})
+    elif case[0] == 'Q':
+        ir, w = chain_irs()[case[1]]
+        judge(ir, w, r, case, nonrec=False)
     elif case[0] == 'R':
         _, name, dom, wrepr, order = case
         ir = dict(IR.recursive_templates()[name])
@@ -113,6 +118,31 @@ def patterned_irs():
                 out.append(dict(base, start='X', nt={'X': ('T',) * 3}, rules=[xrule]))
                 out.append(dict(base, start='S', nt={'S': (), 'X': ('T',) * 3}, term={'i': ('T', 'T'), 'g': ('T', 'T', 'T'), 'h': ('T',), 'p': ('T', 'T'), 'q': ('T',)},
                                 rules=[('S', ('T',) * 3, (), (('X', (0, 1, 2)), ('p', (0, 1)), ('q', (2,)))), xrule]))
+    return out
+
+
+def chain_irs():
+    """X(v) -> t(v,w) X(w) | e(v) over a domain of size 3 or 4 where t only leads from value i to i+1 and only the last
+    value has a base weight: the best derivation from value 0 has to apply the recursive rule several times.  Both rule
+    orders, the start symbol S -> X(v) f(v) and X itself as start symbol."""
+    out = []
+    T = ('T',)
+    for dom in (3, 4):
+        for order in (0, 1):
+            for wrap in (False, True):
+                xr = [('X', ('T', 'T'), (0,), (('t', (0, 1)), ('X', (1,)))), ('X', T, (0,), (('e', (0,)),))]
+                if order:
+                    xr.reverse()
+                ir = {'start': 'S' if wrap else 'X', 'nl': {'T': dom}, 'term': {'t': ('T', 'T'), 'e': T}, 'nt': {'X': T}, 'rules': list(xr)}
+                if wrap:
+                    ir['nt'] = {'S': (), 'X': T}
+                    ir['term']['f'] = T
+                    ir['rules'] = [('S', T, (), (('X', (0,)), ('f', (0,))))] + ir['rules']
+                w = {'t': [[(Fraction(1, 2 + i) if j == i + 1 else Fraction(0)) for j in range(dom)] for i in range(dom)],
+                     'e': [Fraction(0)] * (dom - 1) + [Fraction(3, 4)]}
+                if wrap:
+                    w['f'] = [Fraction(1)] + [Fraction(1, 1000)] * (dom - 1)
+                out.append((ir, w))
     return out
 
 
